@@ -88,8 +88,9 @@ CLAIMED = {
         "0..=2 (thorough 3) entries with symbolic names (string equality / order = equality / order of integer ids, decided by z3), once with the entries yielded in one order and once "
         "in the reverse order; every pair of jointly satisfiable paths of the two runs must build the identical sequence of dependency lines (`sort_by` is modelled as: every "
         "permutation ascending in the keys, under the corresponding order constraints). A deviation is replayed by generating the same project in several processes through the "
-        "public ProjectGenerator API and comparing the written Cargo.toml (`replay cargotoml`, dev and release).",
-   note="Kernel-only: the generated Rust files (emitter metadata maps, codegen feature sets), module-declaration order in generate_multi / generate_nested, module collection order "
+        "public ProjectGenerator API and comparing the written Cargo.toml (`replay cargotoml`, dev and release). X-mod_decls: the same two-order execution of generate_multi - "
+        "the `mod <name>;` declarations inserted into main.rs are one per module and the same sequence under both iteration orders.",
+   note="Kernel-only: the generated Rust files (emitter metadata maps, codegen feature sets), module-declaration order in generate_nested (keys are Vec<String>), module collection order "
         "in the CLI, diagnostics order and formatter output are NOT covered (their HashMaps are keyed by non-string values or live in code that writes files as it goes); two of "
         "the three round-5 seeded changes for this property are outside this kernel. One genuine defect (dependency lines in iteration order) was repaired in /repo.",
    ref="DESIGN.md section 0.7, C12"),
@@ -162,21 +163,26 @@ CLAIMED = {
         "lines for serde + serde_json, axum + tokio(net), tokio exactly when needed, and one line `name = <its own recorded spec>` for every rust:: crate whose name is none of the "
         "crates already declared - never a second line for one that is (z3 decides the name equalities), never `*`; (b) X-add_rust_crate: for each of the 19 known-good crates "
         "exactly its documented pin is recorded, for any other name nothing is recorded and Err(UnknownCrateError) is returned - the invariant (every recorded spec is Some) under "
-        "which (a) is decided. Replay: `replay cargotoml` (six projects through the public ProjectGenerator API, several processes, dev and release).",
+        "which (a) is decided; (a) also demands that [package] name and the [[bin]] / [lib] name are the project's name as given; (c) X-generate_writes: every successful path of "
+        "ProjectGenerator::generate (thorough: generate_multi too) writes, to <out>/Cargo.toml, the manifest generated in that same call. Replay: `replay cargotoml` (projects through "
+        "the public ProjectGenerator API in several processes, a rebuild into the same directory, a hyphenated project name; dev and release).",
    note="Kernel-only: whether the need-flags agree with what the emitter writes (feature scanners vs use-line insertion), [package] / [[bin]] naming, output-dir validation and the "
         "CLI's handling of the error are NOT covered; the round-5 seeded change in the serde scanner is outside. Two genuine defects were repaired in /repo (unknown crates "
         "declared as `*`; dependency order, see C12).",
    ref="DESIGN.md section 0.7, C15"),
  "C16": dict(
    cat="model_checking", tech="enum-level symbolic execution of rustc MIR + SMT (z3): the verdict loop of run_tests over symbolic tests / markers / outcomes; frame condition (reads and writes of the test-mode state) over the MIR of the whole crate",
-   text="Solver-based, bounded, TWO mechanisms of the property: (a) X-run_tests: the verdict loop of `incan test` is executed from the whole-crate MIR from the point where the "
+   text="Solver-based, bounded, the runner's verdict mechanisms: (a) X-run_tests: the verdict loop of `incan test` is executed from the whole-crate MIR from the point where the "
         "filtered test list exists - 0..=2 (thorough 3) tests with 0..=2 (3) markers of every kind, every outcome of run_single_test (uninterpreted), --exitfirst symbolic: "
         "on every feasible path a @skip test is never run, every other test is run exactly once and in order unless --exitfirst stopped the run after a failure, @xfail "
-        "inverts the verdict, and the exit status is a failure exactly when an executed test failed without @xfail or passed with it; (b) X-test_harness: the test-mode flag "
+        "inverts the verdict, and the exit status is a failure exactly when an executed test failed without @xfail or passed with it (a marker the loop never looked at is a free "
+        "answer: a test may only run when every marker was seen not to be @skip); X-test_filter: the selection closure keeps a test iff its name contains the -k keyword (if "
+        "given) and it is not @slow unless --slow; X-test_attr: on every path of IrEmitter::emit_function the selected function - and only it - gets #[test], whatever its "
+        "return type; (b) X-test_harness: the test-mode flag "
         "and the selected test function that the runner sets on the code generator are actually READ by code generation (a frame condition over every function of the crate) - "
         "on the unchanged tree they were read by nothing: no #[test] was ever generated and every test was reported as passed; shown natively (`replay testrun`: the public "
         "run_tests, cargo in the generated project) and repaired in /repo.",
-   note="Kernel-only: discovery, filtering (-k, slow), fixtures and parametrisation, the per-test pipeline inside run_single_test (lex/parse/codegen/cargo) and the extraction of "
+   note="Kernel-only: discovery, fixtures and parametrisation, the per-test pipeline inside run_single_test (lex/parse/codegen/cargo) and the extraction of "
         "failure messages are NOT covered symbolically; the native replay exercises one passing, one failing-assertion and one zero-division test.",
    ref="DESIGN.md section 0.7, C16"),
  "C17": dict(
